@@ -1021,3 +1021,125 @@ REGISTRY["C17"] = dict(
                "the check requires the same answers before and after). A user `.unregister` not yet answered by `.unregistered` "
                "when the process dies is outside the model (the handler returns after restart).",
     assumptions=["ids in the stored history are increasing (C01/C02)"])
+
+
+def svc_run(kind):
+    def run(ctx):
+        n = (8 if kind == "cmd" else 6) if ctx.tier == "quick" else 150
+        seeds = [ctx.rnd.randrange(1, 10 ** 9) for _ in range(n)]
+        from concurrent.futures import ThreadPoolExecutor
+        fn = V.run_command_scenario if kind == "cmd" else V.run_generator_scenario
+        with ThreadPoolExecutor(max_workers=6) as ex:
+            reps = list(ex.map(fn, seeds))
+        for sd, r in zip(seeds, reps):
+            for v in r["violations"][:3]:
+                ctx.violation(v["what"][:700], dict(engine="V", seed=sd, scenario=kind, script=v.get("script")))
+        if kind == "cmd":
+            cov = dict(calls=sum(r["calls"] for r in reps), frames_compared=sum(r["frames"] for r in reps),
+                       samples=[dict(seed=seeds[0], scripts=reps[0]["scripts"], events=reps[0]["events"])])
+            rule = ("one evaluation = one scenario on the real server (api + command dispatcher): command scripts from a DSL (0-3 "
+                    "output values, single value, explicit .append inside with/without --meta, runtime error, custom suffix/ttl, slow "
+                    "scripts, a per-call counter kept in $env), define / redefine / invalid define / call / bursts of overlapping calls "
+                    "over names and contexts, a call before any definition; the frames of every call (grouped by meta.frame_id) must "
+                    "equal what the extracted model computes from the definition in force (latest valid define before the call): "
+                    "topics, caller's context, command_id, ttl, contents from CAS, order, terminal event; the counter must read 1 in "
+                    "every call (no state leaks)")
+            nontrivial = sum(1 for r in reps if r["calls"] >= 3)
+        else:
+            cov = dict(spawns=sum(r["spawns"] for r in reps), frames_compared=sum(r["frames"] for r in reps),
+                       complete_lifecycles=sum(r["lifecycles"] for r in reps),
+                       samples=[dict(seed=seeds[0], expressions=reps[0]["exprs"])])
+            rule = ("one evaluation = one scenario on the real server (api + generator dispatcher): 2-4 generators over two contexts "
+                    "from expressions producing 0..4 strings (single value, list stream, range stream, empty and non-ASCII strings), "
+                    "duplex generators fed by .send frames interleaved with other traffic, spawns without content and spawns of a "
+                    "running name (refused); after ~2.6 s (at least two restarts) the frames of every spawn (by meta.source_id) must be "
+                    "a prefix of the model's start, recv..., stop, start, ... with the produced strings as contents, in the spawn's "
+                    "context, with at least two complete lifecycles; refused spawns yield exactly one .spawn.error")
+            nontrivial = sum(1 for r in reps if r["frames"] >= 4)
+        ctx.coverage.update(dict(evaluations=len(seeds), distinct_nontrivial=nontrivial, rule=rule,
+                                 traces_validated_against_impl=len(seeds), **cov))
+    return run
+
+
+def svc_replay(kind):
+    def replay(ctx, obj):
+        r = (V.run_command_scenario if kind == "cmd" else V.run_generator_scenario)(obj["seed"])
+        print(json.dumps(r["violations"], indent=1)[:3000])
+        for v in r["violations"]:
+            ctx.violation("replay: " + v["what"][:600], dict(engine="V", seed=obj["seed"], scenario=kind))
+        ctx.coverage.update(dict(evaluations=1, distinct_nontrivial=1, samples=[obj["seed"]]))
+    return replay
+
+
+REGISTRY["C18"] = dict(
+    prop_file="Props/C18.v", engine="V", run=svc_run("gen"), replay=svc_replay("gen"),
+    level_text="Coq (for every list of produced strings): a lifecycle is start, one recv per string in production order with "
+               "that string as content, stop; all frames carry the spawn id as source and the spawn's context; consecutive "
+               "lifecycles concatenate (restart after stop); duplex input is the contents of the .send frames after the start, "
+               "once each, in order. Mostly by construction of a sequential worker, so the weight is on the tie: generator "
+               "scenarios on the real server compared frame by frame with the extracted model (it found the empty-string "
+               "defect fixed in /repo).",
+    level_note=HANDLER_NOTE + " The 1 s respawn delay is real time. Duplex input is not filtered by context in the code (noted, "
+               "DESIGN §0.3); scenarios send in the generator's own context.",
+    assumptions=["Nushell pipeline evaluation is an oracle; expressions are sampled from a small set"])
+REGISTRY["C19"] = dict(
+    prop_file="Props/C19.v", engine="V", run=svc_run("cmd"), replay=svc_replay("cmd"),
+    level_text="Coq (for every script result): the frames of a call are its explicit appends, one result per output value in "
+               "order on <name><suffix> with the configured TTL, then exactly one terminal .complete - or its appends and "
+               "exactly one .error - all stamped with the definition id and the call id in the caller's context (stamps are a "
+               "function of the call alone); the latest valid definition wins, an invalid one is reported and changes nothing; "
+               "one action per event while serving and start-up ignores historical calls (no replay). Tie: command scenarios on "
+               "the real server incl. overlapping calls and per-call isolation.",
+    level_note=HANDLER_NOTE + " The command table is keyed by name only (a definition in one context serves calls from another): "
+               "modelled as such.",
+    assumptions=["Nushell evaluation is an oracle; per-call isolation (fresh engine clone) is exercised by a counter kept in $env"])
+
+
+def c10_run(ctx):
+    n = 3 if ctx.tier == "quick" else 40
+    seeds = [ctx.rnd.randrange(1, 10 ** 9) for _ in range(n)]
+    from concurrent.futures import ThreadPoolExecutor
+    with ThreadPoolExecutor(max_workers=3) as ex:
+        reps = list(ex.map(V.run_cas_scenario, seeds))
+    for sd, r in zip(seeds, reps):
+        for v in r["violations"][:4]:
+            ctx.violation(v["what"][:600], dict(engine="H/V", seed=sd, scenario="cas"))
+    # crash form: kill images of content-carrying workloads (engine K)
+    K.build_shim()
+    crash_tot, crash_states = 0, {}
+    for w in range(1 if ctx.tier == "quick" else 10):
+        rr = random.Random(ctx.rnd.getrandbits(64))
+        script = [f"append - {S.xh(S.XS_CONTEXT)} - - -"]
+        for i in range(rr.randrange(5, 9)):
+            content = rr.choice([b"hello", b"z" * 9000, bytes(rr.randrange(256) for _ in range(40)), b"", b"a"])
+            script.append(f"append {rr.choice(['-', '@0'])} {S.xh(rr.choice(['a', 'b']))} {S.xh(content)} - -")
+        res = K.run_workload(script, variants=("kill", "torn2"))
+        for x in res["results"]:
+            crash_tot += 1
+            crash_states[x.get("state") or x["kind"]] = crash_states.get(x.get("state") or x["kind"], 0) + 1
+            if x["kind"] == "violation":
+                ctx.violation("process kill: " + x["what"][:600], dict(engine="K", script=script, crash_at=x["n"], torn=x.get("torn")))
+    ctx.coverage.update(dict(
+        evaluations=sum(r["writes"] + r["reads"] for r in reps) + crash_tot, distinct_nontrivial=sum(r["writes"] for r in reps),
+        rule="one evaluation = one content write or read-back on the real server, or one crash image: byte strings (empty, 1 byte, "
+             "NUL, non-UTF-8, 8191/8192/8193 bytes, 100 KiB random) through POST /cas and POST /{topic}, plus a handler's buffered "
+             ".append and return value, a command output and a generator output; every reported hash is compared with an "
+             "independent sha256 (python hashlib), every content is read back byte for byte, a follower connection fetches the "
+             "content of every hashed frame the moment it is delivered, everything is re-read after a process kill + restart; and "
+             "kill images (every tracked syscall) of content-carrying workloads must hold the content of every visible hashed frame",
+        content_writes=sum(r["writes"] for r in reps), content_reads=sum(r["reads"] for r in reps),
+        frames_fetched_by_racing_follower=sum(r["raced"] for r in reps), crash_images=crash_tot, crash_outcomes=crash_states,
+        traces_validated_against_impl=len(seeds), samples=[dict(seed=seeds[0], body_sizes=reps[0]["sizes"])]))
+
+
+REGISTRY["C10"] = dict(
+    prop_file="Props/C10.v", engine="H", run=c10_run, replay=lambda ctx, obj: c10_run(ctx),
+    level_text="Coq (front-end model): content written under a hash is returned byte for byte by it; an append without a body "
+               "yields a frame without a hash, with a body the frame carries that body's hash; in the state where the appended "
+               "frame is visible its content is already in the CAS (committed before the store append). Byte-exactness, the hash "
+               "function and its determinism across entry points and restarts are oracle properties: CHECKED on every run against "
+               "an independent sha256, by reading every content back, by a follower racing every append, across a kill + "
+               "restart, and on kill images at every tracked syscall (engine K).",
+    level_note=TRUSTED + "partial: sha256/cacache byte-exactness are differential only; content durability against power loss is "
+               "not claimed (as in the property).",
+    assumptions=["cacache publishes content by an atomic rename before write_hash/commit returns"])
